@@ -48,6 +48,30 @@ def _pure_path(e) -> bool:
     return isinstance(e, ast.Name)
 
 
+PURE_FUNCS = {"len", "isinstance", "issubclass", "bool", "int", "float", "str", "repr", "type", "id", "callable", "hasattr",
+              "min", "max", "abs", "all", "any", "sum", "tuple", "frozenset", "range", "divmod", "round", "ord", "chr", "hash"}
+PURE_METHODS = {"get", "keys", "values", "items", "index", "count", "copy", "tell", "getvalue", "startswith", "endswith", "is_set",
+                "qsize", "empty", "full", "isdisjoint", "issubset", "issuperset", "find", "rfind", "lower", "upper", "strip",
+                "rstrip", "lstrip", "split", "join", "format", "is_alive", "fileno", "readable", "writable", "seekable", "closed",
+                "bit_length", "isdigit", "isalpha", "encode", "decode", "field_names", "field_types", "total_seconds"}
+
+
+def _read_only(e) -> bool:
+    """evaluating ``e`` changes nothing: no call other than the read-only builtins / methods above, no yield / await /
+    walrus; generator expressions and comprehensions over read-only parts are read-only themselves"""
+    for n in ast.walk(e):
+        if isinstance(n, (ast.Yield, ast.YieldFrom, ast.Await, ast.NamedExpr, ast.Lambda)):
+            return False
+        if isinstance(n, ast.Call):
+            f = n.func
+            if isinstance(f, ast.Name) and f.id in PURE_FUNCS:
+                continue
+            if isinstance(f, ast.Attribute) and f.attr in PURE_METHODS:
+                continue
+            return False
+    return True
+
+
 def _clone(e):
     import copy
     return copy.deepcopy(e)
@@ -207,6 +231,22 @@ class _N(ast.NodeTransformer):
                     continue
             if isinstance(st, ast.Assert) and isinstance(st.test, ast.Constant) and st.test.value is True:
                 continue
+            # N21: an assertion whose test only reads (no call that could change state) is assumed to hold
+            if isinstance(st, ast.Assert) and _read_only(st.test):
+                continue
+            # N22: a store to a local that nothing reads (e.g. a counter that only fed a log line) is dropped when the stored
+            # expression only reads
+            if self._in_func and isinstance(st, (ast.Assign, ast.AugAssign, ast.AnnAssign)):
+                tg = st.targets[0] if isinstance(st, ast.Assign) and len(st.targets) == 1 else getattr(st, "target", None)
+                if isinstance(tg, ast.Name) and self._uses.get(tg.id, 0) == 0 and tg.id not in self._declared \
+                        and tg.id not in self._params and st.value is not None and _read_only(st.value):
+                    if any(isinstance(n, (ast.Subscript, ast.Attribute, ast.Call, ast.BinOp, ast.Compare)) for n in ast.walk(st.value)):
+                        # the evaluation itself may raise (a look-up made for its KeyError): keep it, drop the binding
+                        if isinstance(st, ast.Assign):
+                            out.append(ast.copy_location(ast.Expr(value=st.value), st))
+                            continue
+                    else:
+                        continue
             out.append(st)
         # N13: x = <list expr>; x.sort(**kw)   ->   x = sorted(<list expr>, **kw)     (adjacent statements, x a local name)
         merged: List[ast.stmt] = []
@@ -318,9 +358,53 @@ class _N(ast.NodeTransformer):
             again.append(st)
             i += 1
         res = again
+        # N19: t = E; if <test starting with t>: ...   ->   if <test with E for t>: ...     (t a local read nowhere else; E is
+        # evaluated at the same moment either way because t is the first thing the test evaluates)
+        if self._in_func:
+            folded: List[ast.stmt] = []
+            i = 0
+            while i < len(res):
+                st = res[i]
+                nxt = res[i + 1] if i + 1 < len(res) else None
+                if isinstance(st, ast.Assign) and len(st.targets) == 1 and isinstance(st.targets[0], ast.Name) \
+                        and isinstance(nxt, ast.If) and self._uses.get(st.targets[0].id, 0) == 1 \
+                        and st.targets[0].id not in self._declared \
+                        and not isinstance(st.value, (ast.Yield, ast.YieldFrom, ast.Await, ast.NamedExpr)):
+                    slot = self._first_evaluated(nxt.test, st.targets[0].id)
+                    if slot is not None:
+                        holder, fld, idx = slot
+                        if holder is None:
+                            nxt.test = st.value
+                        elif idx is None:
+                            setattr(holder, fld, st.value)
+                        else:
+                            getattr(holder, fld)[idx] = st.value
+                        folded.append(nxt)
+                        i += 2
+                        continue
+                folded.append(st)
+                i += 1
+            res = folded
         if not res:
             res = [ast.copy_location(ast.Pass(), stmts[0])] if stmts else []
         return res
+
+    @staticmethod
+    def _first_evaluated(test, name):
+        """where in ``test`` the name sits, if it is the first thing the test evaluates: (holder, field, index) or None"""
+        holder, fld, idx = None, None, None
+        e = test
+        while True:
+            if isinstance(e, ast.Name):
+                return (holder, fld, idx) if e.id == name and isinstance(e.ctx, ast.Load) else None
+            if isinstance(e, ast.UnaryOp) and isinstance(e.op, ast.Not):
+                holder, fld, idx, e = e, "operand", None, e.operand
+            elif isinstance(e, ast.BoolOp):
+                holder, fld, idx, e = e, "values", 0, e.values[0]
+            elif isinstance(e, ast.Compare):
+                holder, fld, idx, e = e, "left", None, e.left
+            else:
+                return None
 
     def _flag_to_else(self, stmts: List[ast.stmt]) -> List[ast.stmt]:
         """N12:  f = True; LOOP (every `f = False` directly followed by break, every break of LOOP directly preceded by it);
@@ -419,6 +503,8 @@ class _N(ast.NodeTransformer):
         return out
 
     _uses: dict = {}
+    _declared: set = set()
+    _params: set = set()
 
     def generic_visit(self, node):
         node = super().generic_visit(node)
@@ -446,8 +532,14 @@ class _N(ast.NodeTransformer):
             if isinstance(n, ast.Name) and isinstance(n.ctx, ast.Load):
                 uses[n.id] = uses.get(n.id, 0) + 1
         self._uses = uses
+        saved_decl, saved_params = self._declared, self._params
+        self._declared = {nm for n in ast.walk(node) if isinstance(n, (ast.Global, ast.Nonlocal)) for nm in n.names}
+        a = node.args
+        self._params = {x.arg for x in a.posonlyargs + a.args + a.kwonlyargs} | ({a.vararg.arg} if a.vararg else set()) \
+            | ({a.kwarg.arg} if a.kwarg else set())
         node = self.generic_visit(node)
         self._uses = saved
+        self._declared, self._params = saved_decl, saved_params
         return node
 
     visit_AsyncFunctionDef = visit_FunctionDef
@@ -494,10 +586,99 @@ class _DropInert(ast.NodeTransformer):
         return node
 
 
+# N20: a local that names a field which is bound once and for all (`cache = self.cache`, `manager = self._manager`) reads as
+# the field.  "Once and for all" is decided for the whole package (``REBOUND_ATTRS``, filled by the loader before the modules
+# are normalised): the attribute name is stored to nowhere outside constructors, and not in the function at hand.
+REBOUND_ATTRS: set = set()
+_REBOUND_KNOWN = False
+
+
+def collect_rebound_attrs(trees) -> set:
+    """attribute names that are assigned / deleted / augmented somewhere outside a constructor (`x.a = ...` in any function
+    other than __init__/__new__/__post_init__, or at module / class level through an object)"""
+    out = set()
+
+    def go(node, in_ctor):
+        for ch in ast.iter_child_nodes(node):
+            if isinstance(ch, (ast.FunctionDef, ast.AsyncFunctionDef)):
+                go(ch, ch.name in ("__init__", "__new__", "__post_init__"))
+                continue
+            if isinstance(ch, ast.Attribute) and isinstance(ch.ctx, (ast.Store, ast.Del)) and not in_ctor:
+                out.add(ch.attr)
+            if isinstance(ch, ast.Call) and isinstance(ch.func, ast.Name) and ch.func.id in ("setattr", "delattr"):
+                out.add("*")
+            go(ch, in_ctor)
+    for t in trees:
+        go(t, False)
+    return out
+
+
+class _AliasFields(ast.NodeTransformer):
+    def visit_FunctionDef(self, node):
+        self.generic_visit(node)
+        if not _REBOUND_KNOWN or "*" in REBOUND_ATTRS:
+            return node
+        a = node.args
+        params = {x.arg for x in a.posonlyargs + a.args + a.kwonlyargs} | ({a.vararg.arg} if a.vararg else set()) \
+            | ({a.kwarg.arg} if a.kwarg else set())
+        stores: dict = {}
+        declared = set()
+        own_attr_stores = set()
+        for n in ast.walk(node):
+            if isinstance(n, ast.Name) and isinstance(n.ctx, (ast.Store, ast.Del)):
+                stores[n.id] = stores.get(n.id, 0) + 1
+            elif isinstance(n, (ast.Global, ast.Nonlocal)):
+                declared |= set(n.names)
+            elif isinstance(n, ast.Attribute) and isinstance(n.ctx, (ast.Store, ast.Del)):
+                own_attr_stores.add(n.attr)
+        if not params:
+            return node
+        cands = {}
+        for i, st in enumerate(node.body):
+            # only top-level statements of the function: the alias is then defined on every later path
+            if isinstance(st, ast.Assign) and len(st.targets) == 1 and isinstance(st.targets[0], ast.Name):
+                nm = st.targets[0].id
+                path = []
+                e = st.value
+                while isinstance(e, ast.Attribute):
+                    path.append(e.attr)
+                    e = e.value
+                if path and isinstance(e, ast.Name) and e.id in params and stores.get(e.id, 0) == 0 \
+                        and stores.get(nm) == 1 and nm not in params and nm not in declared \
+                        and not any(x in REBOUND_ATTRS or x in own_attr_stores for x in path):
+                    cands[nm] = (i, st)
+        if not cands:
+            return node
+        for nm, (i, st) in cands.items():
+            # every read of the alias must come after its definition: reads are confined to the statements after it
+            early = any(isinstance(n, ast.Name) and n.id == nm for s_ in node.body[:i] for n in ast.walk(s_))
+            if early:
+                continue
+            sub = _SubstName(nm, st.value)
+            for j in range(i + 1, len(node.body)):
+                node.body[j] = sub.visit(node.body[j])
+            node.body[i] = ast.copy_location(ast.Pass(), st)
+        node.body = [s_ for s_ in node.body if not isinstance(s_, ast.Pass)] or [ast.copy_location(ast.Pass(), node)]
+        return node
+
+    visit_AsyncFunctionDef = visit_FunctionDef
+
+
+class _SubstName(ast.NodeTransformer):
+    def __init__(self, name, expr):
+        self.name, self.expr = name, expr
+
+    def visit_Name(self, node):
+        if node.id == self.name and isinstance(node.ctx, ast.Load):
+            return ast.copy_location(_clone(self.expr), node)
+        return node
+
+
 def normalise(tree: ast.Module) -> ast.Module:
     roots = _inert_roots(tree)
     if roots:
         tree = _DropInert(roots).visit(tree)
+    tree = _AliasFields().visit(tree)
     tree = _N().visit(tree)
     ast.fix_missing_locations(tree)
     return tree
